@@ -2,7 +2,7 @@
    Property theorems only; proofs in Qty/Proofs.v (exact level) and
    Qty/Struct.v (any number type, hence IEEE doubles, given the stated laws). *)
 From Coq Require Import List ZArith QArith Qcanon String Bool.
-From NV Require Import Qty.Model Qty.Exec Qty.Proofs Qty.Struct Qty.TableSem Qty.Good Qty.Demo.
+From NV Require Import Qty.Model Qty.Exec Qty.Proofs Qty.Struct Qty.MinUnit Qty.TableSem Qty.Good Qty.Demo.
 Import ListNotations.
 Local Open Scope Qc_scope.
 
@@ -99,15 +99,22 @@ Theorem C12_sub_bitwise :
 Proof. intros T N tbl res keys a b r r'. exact (sub_anti_struct N tbl res keys a b r r'). Qed.
 Print Assumptions C12_sub_bitwise.
 
-(* Not proved (definition only): for pairwise different sizes and no zero
-   operand every bracketing of a three-operand sum lands in the smallest unit
-   (DESIGN.md C12_min_unit); the displayed-unit clause for three operands is
-   covered by the correspondence check only. *)
-Definition C12_min_unit_full : Prop :=
-  forall tbl, good_table tbl -> forall keys a b c r,
-    eval QcN tbl (resolve QcN tbl) keys (EAdd (EAdd a b) c) = Ok r ->
-    forall x, In x (expr_units (EAdd (EAdd a b) c)) ->
-      Qcle (Den (resolve QcN tbl) (q_unit r)) (Den (resolve QcN tbl) x).
+(* three operands: when no operand and no partial sum is zero, (a + b) + c is
+   expressed in a unit that is not larger than any of the three operand units
+   (so for pairwise different sizes: in the smallest one) *)
+Theorem C12_min_unit :
+  forall tbl, good_table tbl -> forall keys a b c s r,
+    unit_int (q_unit a) = true -> unit_int (q_unit b) = true -> unit_int (q_unit c) = true ->
+    q_is_zero QcN a = false -> q_is_zero QcN b = false -> q_is_zero QcN c = false ->
+    qadd QcN tbl (resolve QcN tbl) keys a b = Ok s -> q_is_zero QcN s = false ->
+    qadd QcN tbl (resolve QcN tbl) keys s c = Ok r ->
+    Qcle (Den (resolve QcN tbl) (q_unit r)) (Den (resolve QcN tbl) (q_unit a))
+    /\ Qcle (Den (resolve QcN tbl) (q_unit r)) (Den (resolve QcN tbl) (q_unit b))
+    /\ Qcle (Den (resolve QcN tbl) (q_unit r)) (Den (resolve QcN tbl) (q_unit c)).
+Proof.
+  intros tbl G keys a b c s r. exact (sum3_min_unit tbl _ keys (good_scale_pos tbl G) a b c s r).
+Qed.
+Print Assumptions C12_min_unit.
 
 (* ---- non-vacuity: 3 ft + 10 in and 10 in + 3 ft on the demo table: the
    hypotheses of C12_bitwise hold and the result is 46 in *)
